@@ -135,6 +135,9 @@ def check_step(ctx, step, res, ref, spec_lines, spec_meta):
         env = ((K + 4) * (2.0 ** -24) + 3 * u) * mag + 3 * u * exact.abs() + 2 * float(torch.finfo(d.dtype).tiny) * u
         if not finite(d):
             if bool((exact.abs() * (1 + 2 * u) < float(torch.finfo(d.dtype).max)).all()):
+                qops = [o for o in step.operands[:2] if oc.is_qb(o)]
+                if len(qops) == 2 and all(o.qtype.is_floating_point for o in qops) and d.dtype == torch.float16:
+                    sigbase = "float8xfloat8-in-float16"
                 ctx.spec_failures.append((f"C05:contraction-nonfinite:{sigbase}", {"op": name, "operands": [oc.enc(o)[:200] for o in step.operands]}))
                 return "differs"
             return "nonfinite-skipped"
